@@ -44,3 +44,59 @@ package locking
 //@   assumed
 //@   props C16
 //@   modifies fresh
+
+// C16: write bits and the cache follow the server.  A lock the server granted
+// is entered into the cache (exactly that lock) before the file is made
+// writable; a lock the server released is removed from the cache by its id,
+// and only then is a lockable file made read-only; an error answer of the
+// server changes neither cache nor write bit.  A lockable working-tree file is
+// writable exactly when the cache says the current committer holds its lock.
+//@ func (*Client).LockFile
+//@   props C16
+//@   requires @inv c.cache != nil && c.client != nil && c.RemoteRef != nil
+//@   at call (locking.LockCacher).Add:1 assert bytesOf(arg1__.Path) == bytesOf(lockRes.Lock.Path) && arg1__.Id == lockRes.Lock.Id && len(lockRes.Message) == 0
+//@   at call tools.SetFileWriteFlag:1 assert arg1__ == true && cache_adds(c.cache) == old(cache_adds(c.cache)) + 1
+//@   ensures result1 == nil ==> cache_adds(c.cache) == old(cache_adds(c.cache)) + 1
+//@ func (*Client).UnlockFileById
+//@   props C16
+//@   requires @inv c.cache != nil && c.client != nil
+//@   modifies fresh, ghost cache_removes[c.cache]
+//@   at call (locking.LockCacher).RemoveById:1 assert arg1__ == id && len(unlockRes.Message) == 0
+//@   at call tools.SetFileWriteFlag:1 assert arg1__ == false && cache_removes(c.cache) == old(cache_removes(c.cache)) + 1
+//@   ensures result == nil ==> cache_removes(c.cache) == old(cache_removes(c.cache)) + 1
+//@ func (*Client).fixSingleFileWriteFlags
+//@   props C16
+//@   requires @inv c != nil
+//@   at call tools.SetFileWriteFlag:1 assert arg0__ == file && arg1__ == lockedbyme(c, file)
+//@   at call tools.SetFileWriteFlag:2 assert arg0__ == file && arg1__ == true
+//@ func (*Client).IsFileLockedByCurrentCommitter
+//@   assumed
+//@   props C16
+//@   modifies fresh
+//@   ensures @def result == lockedbyme(c, path)
+//@ func (*Client).IsFileLockable
+//@   assumed
+//@   props C16
+//@   modifies fresh
+//@ func (*Client).getAbsolutePath
+//@   assumed
+//@   props C16
+//@   modifies fresh
+//@ iface (LockCacher).RemoveById
+//@   params recv id
+//@   modifies fresh, ghost cache_removes[recv]
+//@   ensures cache_removes(recv) == old(cache_removes(recv)) + 1
+//@ iface (lockClient).Lock
+//@   modifies fresh
+//@   ensures result2 == nil ==> result0 != nil && (len(result0.Message) == 0 ==> result0.Lock != nil)
+//@ iface (lockClient).Unlock
+//@   modifies fresh
+//@   ensures result2 == nil ==> result0 != nil
+//@ func github.com/git-lfs/git-lfs/v3/tools.SetFileWriteFlag
+//@   assumed
+//@   props C16
+//@   modifies fresh
+//@ func github.com/git-lfs/git-lfs/v3/tools.FileExists
+//@   assumed
+//@   props C16
+//@   modifies fresh
